@@ -35,6 +35,21 @@ void NewtonBacktrackOneDimension::doInit(const ParameterList& params)
 
 /******************************************************************************/
 
+double NewtonBacktrackOneDimension::optimize()
+{
+  AbstractOptimizer::optimize();
+  double lambda = getParameters()[0].getValue();
+  if (lambda == 0 || f_ > fold_ + lambda * 0.0001 * slope_)
+  {
+    // No step was accepted (search abandoned or interrupted): report the starting point, not the last rejected trial.
+    getParameter_(0).setValue(0);
+    currentValue_ = getFunction()->f(getParameters());
+  }
+  return currentValue_;
+}
+
+/******************************************************************************/
+
 double NewtonBacktrackOneDimension::doStep()
 {
   if (alam_ < alamin_)
